@@ -119,7 +119,7 @@ def worker(wid, todo, props, outpath, lock):
                 if rc != 0:
                     rec["status"] = "stillborn"
                 else:
-                    rc, out = sh("cargo test --workspace --no-fail-fast --offline >/dev/null 2>&1", wt)
+                    rc, out = sh("timeout -k 5 400 cargo test --workspace --no-fail-fast --offline >/dev/null 2>&1", wt)
                     if rc != 0:
                         rec["status"] = "killed-by-existing-tests"
                     else:
